@@ -243,7 +243,8 @@ def clause_memory(prog, rep):
                 continue
             npop += 1
             og = A.origins(prog, g, c.args[1]["p"][0], scope=None, max_frames=0) if len(c.args) > 1 and "p" in c.args[1] else None
-            live = bool(og) and og.has_call(lambda x: x.name == "peek") and "groups_cache" in og.fields
+            # read out of the live map by any accessor (peek / get / the pop that removes the record itself)
+            live = bool(og) and og.has_call(lambda x: x.name in ("peek", "get", "pop", "peek_mut", "get_mut", "remove")) and "groups_cache" in og.fields
             from_snapshot = bool(og) and "group" in og.fields and not live
             rep.check(live and not from_snapshot, "memory-scope", "restore/nostr-index-key",
                       "the routing-index entry removed on restore is keyed by the live record's nostr_group_id",
